@@ -18,6 +18,7 @@
 # the LICENSES folder.
 
 from dataclasses import dataclass
+from math import inf
 from string import (
     ascii_letters,
     ascii_lowercase,
@@ -305,6 +306,10 @@ class Tokenizer:
 
         if Class is Number or Class is FixedNumber:
             value = float(self._value)
+            if value in (inf, -inf):
+                raise ValueError(
+                    f"Expected a numeric value that can be represented as a finite floating-point number instead of '{self._value}'"
+                )
         else:
             value = self._original[self._start:self._end]
 
